@@ -2,18 +2,30 @@ import CharsetProof.Lemmas.Chaos
 import CharsetProof.Lemmas.CohOk
 import CharsetProof.Lemmas.EntryFacts
 import CharsetProof.Lemmas.F32
+import CharsetProof.Lemmas.FloatMono
+import CharsetProof.Lemmas.LeOne
 import CharsetProof.Lemmas.Md
 import CharsetProof.Lemmas.SortPerm
 import CharsetProof.Props.C04
 import CharsetProof.Props.C04b
 import CharsetProof.Props.C04c
 import CharsetProof.Props.C04d
+import CharsetProof.Props.C04e
 import CharsetProof.Props.C10e
 open Charset
 #print axioms C04_chaos_range
 #print axioms C04_chaos_range_md
 #print axioms C04_chaos_range_full
 #print axioms C04_coherence_nonneg_full
+#print axioms C04_coherence_unit_interval_full
+#print axioms C04_coherence_range_full
+#print axioms Fl.roundPos_mono
+#print axioms Fl.ival_mono
+#print axioms Fl.ival_roundPos_nat
+#print axioms Fl.add_key
+#print axioms Fl.div_key
+#print axioms jaro_le_one
+#print axioms mergeModel_scores_le_one
 #print axioms Coh.coherenceRatio_scores_ok
 #print axioms mergeModel_scores_ok
 #print axioms jaro_ok
